@@ -31,7 +31,7 @@ def run(p: Program, rep: Report, tier: str) -> None:
         "(receive() / wsgi.input.read) has passed the `_stream_consumed` test on its false branch (the true branch raises "
         "RuntimeError) and has set the flag before the first read; the replay branch returns the cached body without touching "
         "the channel; no other method of the request classes reads the channel (is_disconnected is the one sanctioned reader). "
-        "R10.2 body/json/form are cached_property, cached_property is a non-data descriptor (no __set__/__delete__) that stores "
+        "R10.5 the stream helpers used by form() run their chunk loop to exhaustion. R10.2 body/json/form are cached_property, cached_property is a non-data descriptor (no __set__/__delete__) that stores "
         "under the function's name on its only computing path and wraps awaitables in ONE future before storing - the second "
         "access never re-enters the function. R10.3 the receive loop leaves only when more_body is false, a disconnect raises "
         "ClientDisconnect, every non-empty chunk is yielded; WSGI returns only on an empty read. R10.4 body is b''.join over "
@@ -123,25 +123,13 @@ def run(p: Program, rep: Report, tier: str) -> None:
                 rep.violation("R10.3", construct(st, text="chunks not yielded"), where(st), "asgi: received chunks are not yielded")
         else:
             # WSGI: return only on an empty read; every non-empty chunk yielded
-            loops = [n for n in ast.walk(st.node) if isinstance(n, ast.While)]
-            ok = False
-            for lp in loops:
-                # roles: the chunk is the local bound to <input>.read(<size parameter>) inside the loop
-                reads_ = [n for n in lp.body if isinstance(n, ast.Assign) and len(n.targets) == 1 and isinstance(n.targets[0], ast.Name) and isinstance(n.value, ast.Call)
-                          and isinstance(n.value.func, ast.Attribute) and n.value.func.attr == "read"]
-                if len(reads_) != 1 or lp.body.index(reads_[0]) != 0 or len(lp.body) != 3:
-                    continue
-                ck = reads_[0].targets[0].id
-                size_ok = [ast.unparse(a) for a in reads_[0].value.args] == [st.params[1]] if len(st.params) > 1 else False
-                test, yld = lp.body[1], lp.body[2]
-                stop = isinstance(test, ast.If) and not test.orelse and ast.unparse(test.test) == f"not {ck}" and len(test.body) == 1 and isinstance(test.body[0], (ast.Return, ast.Break)) and getattr(test.body[0], "value", None) is None
-                emits = isinstance(yld, ast.Expr) and isinstance(yld.value, ast.Yield) and isinstance(yld.value.value, ast.Name) and yld.value.value.id == ck
-                if size_ok and stop and emits:
-                    ok = True
-            if ok:
-                rep.ok("R10.3", "wsgi: the read loop returns only on an empty read and yields every chunk")
+            r = wsgi_read_loop(st)
+            if r[0] == "ok":
+                rep.ok("R10.3", f"wsgi: the read loop returns only on an empty read and yields every chunk ({r[1]})")
+            elif r[0] == "violation":
+                rep.violation("R10.3", construct(st, text="read loop"), where(st, r[2]), f"wsgi: {r[1]}")
             else:
-                rep.violation("R10.3", construct(st, text="read loop"), where(st), "wsgi: the read loop does not 'read; return on empty; yield chunk'")
+                rep.undecide("R10.3", f"wsgi: Request.stream(): {r[1]}")
         # R10.4
         rets = [n for n in walk_shallow(body.node) if isinstance(n, ast.Return)]
         txt = ast.unparse(rets[0].value) if rets else ""
@@ -188,6 +176,35 @@ def run(p: Program, rep: Report, tier: str) -> None:
                 rep.violation("R10.2", construct(m, text="decorators " + ",".join(m.decorators)), where(m), f"{side}: Request.{name} is not a cached_property: every access recomputes it (the stream is consumed on the second one)")
     rep.require_instances("R10.1", 6)
     rep.require_instances("R10.3", 4)
+
+    # ---------------------------------------------------------------- R10.5 the form accessors drain the stream
+    # form parsing consumes self.stream() through the stream helpers; leaving the chunk loop early (e.g. once the closing
+    # delimiter was seen) leaves server messages unread: a later disconnect message is never seen as ClientDisconnect, and
+    # the bytes after the delimiter stay in the channel
+    from .mp_common import helpers as _helpers
+    for hname, hf in _helpers(p).items():
+        rep.analysed(hf.fq)
+        loops = [n for n in walk_shallow(hf.node) if isinstance(n, (ast.For, ast.AsyncFor)) and isinstance(n.iter, ast.Name) and n.iter.id == hf.params[0]]
+        if len(loops) != 1:
+            rep.undecide("R10.5", f"{hname}: expected one loop over the stream parameter, found {len(loops)}")
+            continue
+        lp = loops[0]
+        early = []
+        for n in ast.walk(lp):
+            if isinstance(n, ast.Return):
+                early.append(n)
+            elif isinstance(n, ast.Break):
+                # a break of an INNER loop (the event loop `while True`) is fine
+                inner = next((q for q in __import__("sa.common", fromlist=["parents"]).parents(n) if isinstance(q, (ast.While, ast.For, ast.AsyncFor))), None)
+                if inner is lp:
+                    early.append(n)
+        if early:
+            rep.violation("R10.5", construct(hf, text="chunk loop left early"), where(hf, early[0]),
+                          f"{hname} leaves the loop over the body chunks before the stream is exhausted: the remaining server messages are never consumed, so a disconnect before the final chunk "
+                          "is not reported as ClientDisconnect and form() returns a result for a truncated request")
+        else:
+            rep.ok("R10.5", f"{hname}: the chunk loop runs until the stream is exhausted (no break/return inside it)")
+    rep.require_instances("R10.5", 2)
 
     # ---------------------------------------------------------------- R10.2 the descriptor
     cp = p.cls("baize.utils:cached_property")
@@ -274,3 +291,60 @@ def run(p: Program, rep: Report, tier: str) -> None:
     if not any(v for v in rep.violations if "cache eviction" in str(v) or "cache overwrite" in str(v)):
         rep.ok("R10.2", f"no function of the package ({n_scan} scanned) deletes or overwrites an instance __dict__ entry: cached results are write-once")
     rep.require_instances("R10.2", 9)
+
+
+def wsgi_read_loop(st: FuncInfo):
+    """The WSGI body reader must end on an EMPTY read only (a short read is not the end of the body) and yield every chunk.
+    Returns ("ok", text) | ("violation", reason, node) | ("unknown", reason).  Roles, not names."""
+    size = st.params[1] if len(st.params) > 1 else None
+
+    def is_read(e: ast.AST) -> bool:
+        return isinstance(e, ast.Call) and isinstance(e.func, ast.Attribute) and e.func.attr == "read" and [ast.unparse(a) for a in e.args] == [size]
+
+    def yields(stmt: ast.stmt, ck: str) -> bool:
+        return isinstance(stmt, ast.Expr) and isinstance(stmt.value, ast.Yield) and isinstance(stmt.value.value, ast.Name) and stmt.value.value.id == ck
+
+    def leaves(stmt: ast.stmt) -> bool:
+        return isinstance(stmt, (ast.Return, ast.Break)) and getattr(stmt, "value", None) is None
+
+    for lp in [n for n in ast.walk(st.node) if isinstance(n, (ast.While, ast.For))]:
+        if not any(is_read(x) or (isinstance(x, ast.Attribute) and x.attr == "read") for x in ast.walk(lp)):
+            continue
+        # idiom 3: for <chunk> in iter(<callable reading size bytes>, b""): yield <chunk>
+        if isinstance(lp, ast.For):
+            it = lp.iter
+            if isinstance(it, ast.Call) and isinstance(it.func, ast.Name) and it.func.id == "iter" and len(it.args) == 2 and isinstance(it.args[1], ast.Constant) and it.args[1].value == b"" \
+                    and isinstance(lp.target, ast.Name) and len(lp.body) == 1 and yields(lp.body[0], lp.target.id):
+                return ("ok", "for chunk in iter(<read>, b''): yield chunk")
+            return ("unknown", "for-loop reader of an unrecognised shape")
+        # idiom 2: while <chunk> := <input>.read(size): yield <chunk>
+        if isinstance(lp.test, ast.NamedExpr) and is_read(lp.test.value) and len(lp.body) == 1 and yields(lp.body[0], lp.test.target.id):
+            return ("ok", "while chunk := read(size): yield chunk")
+        body = lp.body
+        if not (body and isinstance(body[0], ast.Assign) and len(body[0].targets) == 1 and isinstance(body[0].targets[0], ast.Name) and is_read(body[0].value)):
+            return ("unknown", "the loop does not start with <chunk> = <input>.read(<size parameter>)")
+        ck = body[0].targets[0].id
+        rest = body[1:]
+        # every way out of the loop must be guarded by exactly `not <chunk>`
+        from ..common import guards_of as _gof
+        exits = [n for n in ast.walk(ast.Module(body=rest, type_ignores=[])) if leaves(n)]
+        if not exits:
+            return ("violation", "the read loop never ends (no return/break on an empty read)", lp)
+        for ex in exits:
+            gs = [(ast.unparse(g), pol) for g, pol in _gof(ex, lp)]
+            if not (gs == [(f"not {ck}", True)] or gs == [(ck, False)]):
+                txt = " and ".join(("" if pol else "not ") + f"({g})" for g, pol in gs) or "unconditionally"
+                return ("violation", f"the read loop ends when {txt}: only an EMPTY read marks the end of the body (a short read does not)", ex)
+        # the chunk is yielded whenever it is non-empty
+        ys = [n for n in ast.walk(ast.Module(body=rest, type_ignores=[])) if isinstance(n, ast.Expr) and yields(n, ck)]
+        if len(ys) != 1:
+            return ("violation", f"a chunk is yielded {len(ys)} times per read", lp)
+        gs = [(ast.unparse(g), pol) for g, pol in _gof(ys[0], lp)]
+        if gs in ([], [(ck, True)], [(f"not {ck}", False)]):
+            return ("ok", "read; leave on an empty read; yield the chunk")
+        return ("violation", "a chunk is yielded only under an extra condition (chunks can be skipped)", ys[0])
+    return ("unknown", "no loop calling <input>.read(<size parameter>) found")
+
+
+def wsgi_read_loop_ok(st: FuncInfo) -> bool:
+    return wsgi_read_loop(st)[0] == "ok"
